@@ -291,6 +291,9 @@ func (r *resolver) applyDeviation(y *Module, d *Deviation) error {
 	hasDets, _ := target.(HasDetails)
 	hasType, _ := target.(Leafable)
 	hasListDets, _ := target.(HasListDetails)
+	if err := r.checkDeviationTarget(d, target, hasDets != nil, hasType != nil, hasListDets != nil); err != nil {
+		return err
+	}
 	if d.Add != nil {
 		if d.Add.configPtr != nil {
 			if hasDets.IsConfigSet() {
@@ -434,6 +437,45 @@ func (r *resolver) applyDeviation(y *Module, d *Deviation) error {
 			target.(HasMusts).setMusts(musts)
 		}
 
+	}
+	return nil
+}
+
+// checkDeviationTarget rejects a deviate naming a property the target's kind
+// cannot carry (RFC 7950 Sec 7.20.3.2) before any of them is applied.
+func (r *resolver) checkDeviationTarget(d *Deviation, target Definition, hasDets, hasType, hasListDets bool) error {
+	var needsDets, needsType, needsListDets, needsMusts, needsList bool
+	if a := d.Add; a != nil {
+		needsDets = needsDets || a.configPtr != nil || a.mandatoryPtr != nil
+		needsListDets = needsListDets || a.maxElementsPtr != nil || a.minElementsPtr != nil
+		needsType = needsType || a.units != "" || a.HasDefault()
+		needsMusts = needsMusts || len(a.musts) > 0
+		needsList = needsList || len(a.unique) > 0
+	}
+	if p := d.Replace; p != nil {
+		needsDets = needsDets || p.configPtr != nil || p.mandatoryPtr != nil
+		needsListDets = needsListDets || p.maxElementsPtr != nil || p.minElementsPtr != nil
+		needsType = needsType || p.units != "" || p.HasDefault()
+	}
+	if x := d.Delete; x != nil {
+		needsType = needsType || x.units != "" || x.HasDefault()
+		needsMusts = needsMusts || len(x.musts) > 0
+		needsList = needsList || len(x.unique) > 0
+	}
+	_, isAny := target.(*Any)
+	_, isList := target.(*List)
+	_, allowsMusts := target.(HasMusts)
+	switch {
+	case needsDets && !hasDets:
+		return fmt.Errorf("%T does not support config or mandatory in deviation %s", target, d.Ident())
+	case needsListDets && !hasListDets:
+		return fmt.Errorf("%T does not support min-elements or max-elements in deviation %s", target, d.Ident())
+	case needsType && (!hasType || isAny):
+		return fmt.Errorf("%T does not support units or default in deviation %s", target, d.Ident())
+	case needsMusts && !allowsMusts:
+		return fmt.Errorf("%T does not support must in deviation %s", target, d.Ident())
+	case needsList && !isList:
+		return fmt.Errorf("%T does not support unique in deviation %s", target, d.Ident())
 	}
 	return nil
 }
